@@ -625,6 +625,9 @@ func (j *Joined) finish(a ParentArgs, p Prop, wallS float64) int {
 	if ex, ok := p.(interface{ Exhaustive(tier string) bool }); ok && ex.Exhaustive(j.Tier) {
 		cov["exhaustive"] = true
 	}
+	if ex, ok := p.(interface{ ExhaustiveScope(tier string) string }); ok {
+		cov["exhaustive_scope"] = ex.ExhaustiveScope(j.Tier)
+	}
 	if j.RaceBlocks > 0 || contains(j.Flavours, "race") {
 		cov["race_report_blocks"] = j.RaceBlocks
 	}
